@@ -1,8 +1,13 @@
 #!/bin/sh
-# usage: tools/try_mutant.sh <diff> <check ids...>  — applies a seeded change to /repo, runs the checks, restores /repo
-diff="$1"; shift
-git -C /repo apply "$diff" || exit 2
+# usage: tools/try_mutant.sh <diff> <check ids...> — applies a seeded change to a scratch worktree of
+# /repo (outside /repo and /verif, removed afterwards) and runs the named checks' correspondence on it
+cd "$(dirname "$0")/.."
+diff=$(realpath "$1"); shift
+wt=/tmp/verif-mut-$$
+git -C /repo worktree add -q --detach "$wt" HEAD || exit 2
+git -C "$wt" apply "$diff" || { git -C /repo worktree remove --force "$wt"; exit 2; }
 for p in "$@"; do
-  echo "== $p"; timeout 900 ./check "$p" --skip-proof 2>&1 | grep -E "VIOLATION|KNOWN|violations" | head -3
+  echo "== $p"; VERIF_REPO="$wt" timeout 1200 ./check "$p" --skip-proof --evidence-dir /tmp/verif-mut-evidence-$$ 2>&1 | grep -E "VIOLATION|KNOWN|violations" | head -3
 done
-git -C /repo checkout -- .
+git -C /repo worktree remove --force "$wt"; git -C /repo worktree prune
+rm -rf /tmp/verif-mut-evidence-$$ .cache/harness-* .cache/target-*-????????
